@@ -384,6 +384,10 @@ def p7(chk, repo, tier, only=None, rule="P7"):
                     if P is None or Oe is None or ob.dom.get("SYMX_partial") or ob.dom.get("SYMX_idx"):
                         n_und += 1
                         continue
+                    # opaque value-numbering atoms are only meaningful within one run
+                    if any(sy.name.startswith("opq:") for sy in (P.free_symbols | Oe.free_symbols)):
+                        n_und += 1
+                        continue
                     # the symbol of the wrt input (all loop passes)
                     cands = [s for nm, s in tc.syms.items() if nm.split("@")[0] == w.replace("[0]", "[i]") or nm == w]
                     tags = {nm.partition("@")[2] for nm, s in tc.syms.items() if s in cands}
